@@ -178,6 +178,8 @@ func (x *Exec) leavesOf(t types.Type) []leaf {
 		ixs := x.idxSort()
 		if at.Len() == strMapLen {
 			ixs = StrSort
+		} else if at.Len() == refMapLen {
+			ixs = RefSort
 		}
 		for _, l := range x.leavesOf(el) {
 			out = append(out, leaf{join("arr", l.path), ArraySort(ixs, l.sort)})
